@@ -715,13 +715,22 @@ def search_failing(ctx, broken):
 
 
 MANIFEST = {
-    'level_text': 'Proof (partial, see notes/C09.md): a heap model of the concrete Loop/Node object state with every '
-                  'public editing operation as a heap transformer; the bookkeeping invariant (cached duration = '
-                  'recomputed, recorded position = position, parent = lister) is an executable predicate; theorems in '
-                  'coq/C09/Props.v state which operations are proved to preserve it for all heaps and arguments; the '
-                  'model is tied to /repo by a step-by-step correspondence check on random and exhaustive histories.',
-    'level_note': 'Trusted: Coq kernel, the hand-written model (tied by correspondence only), abstract waveforms, parents '
-                  'as plain ids (no garbage collection), harness.',
-    'technique': 'Coq proof over a heap model + correspondence check on operation histories',
-    'design_ref': 'DESIGN.md §5 C09, §4.5',
+    'level_text': 'Proof (partial): heap model of the concrete Loop/Node object state with every public editing operation as '
+                  'a heap transformer.  Proved for all heaps, nodes and arguments (unbounded, by induction; no axioms): every '
+                  'constructed tree satisfies the invariant (cached duration = recomputed, recorded position = position, '
+                  'parent = lister); it is preserved by append_child of any fresh tree or copy (incl. the incremental cache '
+                  'patch along the parent chain), by the waveform / repetition_count / repetition_definition setters, by the '
+                  'memoising duration queries, hence by every finite history over these operations; the reset walk restores '
+                  'it after any change below a node; Loop.__eq__ reads structure/counts/waveforms/measurements only.  '
+                  'NOT proved (C09_step_statement stays open): __setitem__ int/slice, unroll, unroll_children, '
+                  'split_one_child, encapsulate, merge/cleanup, reverse_inplace, roll_constant_waveforms - for these the '
+                  'invariant is evaluated on the real objects after every step of random and small-scope exhaustive '
+                  'histories (check_spec) and the model is compared with the code step by step (check_corr).',
+    'level_note': 'Trusted: Coq kernel + vm_compute; the hand-written model (tied to /repo by correspondence only, no '
+                  'translator); abstract waveforms; parent weak references as plain ids (objects kept alive); nodes addressed '
+                  'by path from the root, inserted values are fresh objects; fuel exhaustion excluded by hypothesis, not '
+                  'proved impossible; Prop-level Inv and the boolean check_spec are the same clauses by inspection only; '
+                  'harness observation code.',
+    'technique': 'Coq proof over a heap model + step-by-step correspondence check on operation histories',
+    'design_ref': 'DESIGN.md §5 C09, §4.5; notes/C09.md',
 }
